@@ -169,6 +169,26 @@ def run(ctx):
     if not first_is_flag or not calls_on_true_edge:
         r.violate("should_stop_removing|emission-disabled-first", "should_stop_removing_element_content no longer requires emission to be disabled", ss.loc())
 
+    # ------------------------------------------------------------------ R09.7
+    r = ctx.rule("R09.7", "nothing but a seen `<` marks a tag start: across a chunk boundary TagScanner::adjust_for_next_input keeps the mark only if tag_start was set; and a rewriter with nothing to capture starts in tag-scanning mode (the lexer holds whole lexemes back)", "E-MIR control dependence", floor=2)
+    aj = _mir.fn("TagScanner::adjust_for_next_input[StateMachine]")
+    wts = [(bi, [aj.deep(aj.blocks[sb]["term"]["d"]) for sb in _gb(aj, bi)]) for f2, bi, st in _mir.field_writes("TagScanner", "tag_start") if f2 is aj]
+    r.inst("adjust|mark-kept-iff-set", sample={"writes": [g for _, g in wts]})
+    if len(wts) != 1 or wts[0][1] != ["discr(self.tag_start)"]:
+        r.violate("adjust|mark-kept-iff-set", f"TagScanner::adjust_for_next_input re-establishes tag_start under {[g for _, g in wts]} instead of exactly `tag_start is Some`: a chunk that ends inside a look-ahead (`<!-`, `DOCT`, `]]`) would continue with a tag-start mark nobody set, and everything up to the next `<` is held back", aj.loc())
+    tn = _mir.fn("TransformStream::new")
+    pn = [t for bi, t in tn.calls(r"Parser::new$")]
+    r.inst("new|initial-directive")
+    okd = False
+    if len(pn) == 1 and pn[0]["args"][1]["k"] in ("copy", "move"):
+        rp_ = tn._root_place_p(pn[0]["args"][1]["p"])
+        loc_ = rp_[0] if rp_ else pn[0]["args"][1]["p"]["local"]
+        defs_ = tn.defs_of(loc_)
+        blocks_ = [bi for _, bi, _ in defs_]
+        okd = len(defs_) == 2 and all(any("initial_capture_flags" in tn.deep(tn.blocks[sb]["term"]["d"]) for sb in _gb(tn, bi)) for bi in blocks_)
+    if not okd:
+        r.violate("new|initial-directive", "TransformStream::new no longer chooses the initial parser directive from initial_capture_flags().is_empty(): with no handlers the parser would start in lexer mode and hold back a leading comment / doctype / start tag until it is complete", tn.loc())
+
     # ------------------------------------------------------------------ R09.5 (shared with C03 R03.8)
     # a RequestLexeme answer makes the tag scanner hand the whole tag to the lexer, which holds its bytes back
     # until the tag is complete: it may be given only where the specification-derived table needs the full tag
